@@ -9,6 +9,8 @@ import (
 	"os"
 	"strconv"
 	"strings"
+	"sync"
+	"sync/atomic"
 	"time"
 
 	"verifharness/lib/gen"
@@ -61,10 +63,122 @@ func judge(rq gen.Req, o gen.Outcome) string {
 	return ""
 }
 
+// storm: several hostile peers at once (each with its own connection / session), shuffled inputs, while an
+// independent client keeps calling; looks for crashes, wedges and cross-client damage under concurrency.
+func storm(rep *vh.Reporter, kind kit.Kind, seed int64, level int) {
+	r := &vh.Run{Seed: seed}
+	in := kit.Start(kind, kit.Opts{})
+	kit.StdFixture(in)
+	ctx := context.Background()
+	other, err := in.Dial(ctx)
+	if err == nil {
+		err = other.Handshake(ctx)
+	}
+	if err != nil {
+		rep.Violation(fmt.Sprintf("C06|storm|second-client|%s", kind), fmt.Sprint(err), nil)
+		rep.Done()
+		return
+	}
+	libBase := leak.Settle(func() int { n, _ := leak.LibNow(); return n }, 2*time.Second)
+	nPeers := 6
+	if kind == kit.Stdio {
+		nPeers = 3
+	}
+	var wg sync.WaitGroup
+	var sent atomic.Int64
+	stop := make(chan struct{})
+	canaryFail := atomic.Int64{}
+	go func() {
+		i := 0
+		for {
+			select {
+			case <-stop:
+				return
+			default:
+			}
+			i++
+			if ok, why := canary(ctx, other, fmt.Sprintf("storm-%d", i)); !ok {
+				if canaryFail.Add(1) == 1 {
+					rep.Violation(fmt.Sprintf("C06|storm|other-client-not-served|%s", kind), fmt.Sprintf("%s: a well-formed call from an independent client failed while %d hostile peers were active: %s", kind, nPeers, why), nil)
+				}
+			} else {
+				rep.Count("canaries_ok", 1)
+			}
+			time.Sleep(2 * time.Millisecond)
+		}
+	}()
+	for p := 0; p < nPeers; p++ {
+		wg.Add(1)
+		go func(p int) {
+			defer wg.Done()
+			c, err := in.Dial(ctx)
+			if err != nil {
+				return
+			}
+			defer c.Close()
+			if c.Handshake(ctx) != nil {
+				return
+			}
+			ids := gen.NewIDGen(fmt.Sprintf("st-%s-%d", kind, p), 100000*(p+1))
+			rng := r.Rand(fmt.Sprintf("c06-storm-%s-%d", kind, p))
+			reqs := gen.Requests(kind, rng, ids, 0)
+			rng.Shuffle(len(reqs), func(i, j int) { reqs[i], reqs[j] = reqs[j], reqs[i] })
+			if len(reqs) > 220 {
+				reqs = reqs[:220]
+			}
+			for _, rq := range reqs {
+				body := rq.Body
+				if len(body) > 200000 {
+					continue // keep the storm fast; giant inputs are covered sequentially
+				}
+				if kind == kit.Stdio {
+					body = []byte(strings.NewReplacer("\n", " ", "\r", " ").Replace(string(body)))
+				}
+				o := rq.Opts
+				o.NoWait = kind == kit.Stdio || kind == kit.LSSE
+				xctx, cancel := context.WithTimeout(ctx, 20*time.Second)
+				ex := c.Post(xctx, body, o)
+				cancel()
+				sent.Add(1)
+				if ex.HTTP != nil && ex.HTTP.Status == 0 && !strings.Contains(ex.HTTP.Err, "invalid header") {
+					rep.Violation(fmt.Sprintf("C06|storm|%s|%s|transport-error", rq.Label, kind), fmt.Sprintf("%s: no HTTP answer under concurrent hostile load: %s", kind, ex.HTTP.Err), nil)
+				}
+			}
+			// the hostile peer's own connection still works afterwards
+			if ok, why := canary(ctx, c, fmt.Sprintf("peer-%d", p)); !ok {
+				rep.Violation(fmt.Sprintf("C06|storm|canary-same-connection|%s", kind), why, nil)
+			}
+		}(p)
+	}
+	wg.Wait()
+	close(stop)
+	rep.Eval(int(sent.Load()))
+	if p := in.ErrLog.Panics(); len(p) > 0 {
+		rep.Violation(fmt.Sprintf("C06|panic-in-handler|%s|%s", kind, panicSite(in.ErrLog.String())), "net/http recovered a panic while serving: "+p[0], map[string]interface{}{"log": bounded(in.ErrLog.String())})
+	}
+	time.Sleep(100 * time.Millisecond)
+	libEnd := leak.Settle(func() int { n, _ := leak.LibNow(); return n }, 3*time.Second)
+	_, by := leak.LibNow()
+	if libEnd-libBase > 40 {
+		rep.Violation(fmt.Sprintf("C06|storm|goroutine-growth|%s", kind), fmt.Sprintf("%s: goroutines with library frames grew from %d to %d over %d hostile inputs", kind, libBase, libEnd, sent.Load()), map[string]interface{}{"by_function": leak.Describe(by)})
+	}
+	rep.Distinct(fmt.Sprintf("storm|%s|peers=%d", kind, nPeers))
+	rep.Count("storm_inputs_"+string(kind), sent.Load())
+	other.Close()
+	in.Close()
+	rep.Done()
+}
+
 func child() {
 	kit.Silence()
 	rep := vh.NewReporter()
 	kind := kit.Kind(os.Getenv("C06_KIND"))
+	if os.Getenv("C06_BATCH") == "storm" {
+		sd, _ := strconv.ParseInt(os.Getenv("C06_SEED"), 10, 64)
+		lv, _ := strconv.Atoi(os.Getenv("C06_LEVEL"))
+		storm(rep, kind, sd, lv)
+		return
+	}
 	batch, _ := strconv.Atoi(os.Getenv("C06_BATCH"))
 	seed, _ := strconv.ParseInt(os.Getenv("C06_SEED"), 10, 64)
 	level, _ := strconv.Atoi(os.Getenv("C06_LEVEL"))
@@ -265,6 +379,7 @@ func main() {
 		for b := 0; b < nBatches; b++ {
 			jobs = append(jobs, job{k, b})
 		}
+		jobs = append(jobs, job{k, -1}) // concurrent storm
 	}
 	sem := make(chan struct{}, 8)
 	done := make(chan struct{}, len(jobs))
@@ -273,7 +388,12 @@ func main() {
 		go func(j job) {
 			defer func() { <-sem; done <- struct{}{} }()
 			tag := fmt.Sprintf("%s-b%d", j.kind, j.batch)
-			res := r.SpawnChild("c06", tag, nil, []string{"C06_KIND=" + string(j.kind), "C06_BATCH=" + strconv.Itoa(j.batch), "C06_SEED=" + strconv.FormatInt(r.Seed, 10), "C06_LEVEL=" + strconv.Itoa(level)}, nil, 10*time.Minute)
+			batchArg := strconv.Itoa(j.batch)
+			if j.batch < 0 {
+				tag = fmt.Sprintf("%s-storm", j.kind)
+				batchArg = "storm"
+			}
+			res := r.SpawnChild("c06", tag, nil, []string{"C06_KIND=" + string(j.kind), "C06_BATCH=" + batchArg, "C06_SEED=" + strconv.FormatInt(r.Seed, 10), "C06_LEVEL=" + strconv.Itoa(level)}, nil, 10*time.Minute)
 			cr := r.Merge(res.Stdout())
 			stderr := res.Stderr()
 			switch {
